@@ -6,6 +6,7 @@ import (
 	"math/rand"
 	"os"
 	"strings"
+	"time"
 
 	"ergo.services/ergo/act"
 	"verifharness/util"
@@ -79,11 +80,22 @@ func execIntensityCase(c intensityCase) []intensityStep {
 			restarts[i] -= d
 		}
 		in := append([]int64{}, restarts...)
-		out, ex := act.VerifCheckRestartIntensity(restarts, c.Period, c.Intensity)
-		st := intensityStep{Shift: d, In: in, Out: append([]int64{}, out...), Ex: ex}
-		if len(out) > 0 {
-			st.Now = out[len(out)-1]
+		// the function reads the wall clock itself: call it (on a private copy of the list, it is pure in
+		// its arguments) until the millisecond did not change across the call, so `now` is known exactly
+		var out []int64
+		var ex bool
+		var now int64
+		for try := 0; ; try++ {
+			arg := append([]int64{}, in...)
+			before := time.Now().UnixMilli()
+			out, ex = act.VerifCheckRestartIntensity(arg, c.Period, c.Intensity)
+			after := time.Now().UnixMilli()
+			now = before
+			if before == after || try > 50 {
+				break
+			}
 		}
+		st := intensityStep{Shift: d, In: in, Out: append([]int64{}, out...), Ex: ex, Now: now}
 		restarts = out
 		steps = append(steps, st)
 	}
